@@ -68,7 +68,13 @@ def draws_in(ctx, fi: FunctionInfo, rng_exprs=("self._rng", "self.prng", "rng", 
                         out.append(Draw(fi, n, "global:" + gm, name))
             continue
         if isinstance(n.func, ast.Attribute) and n.func.attr in GEN_DRAW_METHODS:
-            recv = norm(n.func.value)
+            rv = n.func.value
+            if isinstance(rv, ast.Name):
+                try:
+                    rv = ctx.view(fi).inline(rv, depth=2)  # gen = self._rng; gen.random()
+                except Exception:
+                    rv = n.func.value
+            recv = norm(rv)
             if recv in rng_exprs or recv.endswith("_rng") or recv.endswith("prng"):
                 out.append(Draw(fi, n, "gen:" + recv, n.func.attr))
     return out
